@@ -3,12 +3,15 @@
 //!   vh-varint replay <mismatch-trace>      direction A: TLC's test vectors on stdin
 //!   vh-varint drive <seed> <ints> <decs> <sessions> <trace>   direction B: seeded driver
 //!   vh-varint rerun <events-in> <events-out>   re-execute the inputs of recorded events
+//!   vh-varint sweep <stride> <offset> <dense> <threads> <mismatch-trace>   all integers x = offset + k * stride (and all of magnitude < dense) on the
+//!             real write_int / read_int; the expected bytes come from the class table TLC prints (stdin)
 //!
 //! The harness never judges: it executes the real code, records what it did as NDJSON
 //! events and (in `replay`) tells which TLC-predicted results were not reproduced; those
 //! cases are written as events and judged by spec/varint/VarIntTrace.tla.
 use libtw2_buffer::with_buffer;
 use libtw2_packer::with_packer;
+use libtw2_packer::IntUnpacker;
 use libtw2_packer::Unpacker;
 use libtw2_packer::Warning;
 use serde_json::{json, Value};
@@ -92,9 +95,39 @@ fn do_dec(b: &[u8]) -> Value {
     dec_json(b, &raw_dec(b))
 }
 
+/// The write phase of a session on the real packer; returns the `w` events and `written()`.
+fn write_phase<'a, B: libtw2_buffer::Buffer<'a>>(buf: B, cap: usize, writes: &[Value], wev: &mut Vec<Value>) -> Vec<u8> {
+    with_packer(buf, |mut p| {
+        for w in writes {
+            let k = w["k"].as_str().unwrap_or("");
+            let x = w["x"].as_i64().unwrap_or(0) as i32;
+            let b = bytes_of(&w["b"]);
+            let r = guarded(5000, || match k {
+                "int" => p.write_int(x),
+                "str" => p.write_string(&b),
+                "data" => p.write_data(&b),
+                "raw" => p.write_raw(&b),
+                "uuid" => p.write_uuid(uuid::Uuid::from_slice(&b).expect("uuid item of 16 bytes")),
+                _ => p.write_rest(&b),
+            });
+            let res = match r {
+                Ok(Ok(())) => "ok",
+                Ok(Err(_)) => "cap",
+                Err(_) => "panic",
+            };
+            let rem = catch(|| with_buffer(&mut p, |b| b.remaining())).unwrap_or(usize::MAX);
+            let after = if rem == usize::MAX { -1 } else { cap as i64 - rem as i64 };
+            wev.push(json!({"e": "w", "k": k, "x": x, "b": jbytes(&b), "res": res, "after": after}));
+        }
+        p.written().to_vec()
+    })
+}
+
 /// A session: writes into a packer of capacity `cap` (skipped if cap < 0), then reads from an
 /// unpacker over `data` (explicit) or over what was written plus `pad` zero bytes.
-/// input: {"cap", "writes":[{"k","x","b"}], "demo", "data": [..] | null, "pad", "reads":[{"o","n"}]}
+/// input: {"cap", "bk", "len0", "writes":[{"k","x","b"}], "demo", "data": [..] | null, "pad", "reads":[{"o","n"}]}
+/// bk: what `with_packer` is given -- "slice" (a guarded &mut [u8]), "vec" (a Vec with len0 bytes in it and
+/// cap bytes of spare capacity), "arrayvec" (an ArrayVec<[u8; 32]> holding 32 - cap bytes)
 fn do_session(s: &Value) -> Vec<Value> {
     let mut ev = Vec::new();
     let cap = s["cap"].as_i64().unwrap_or(-1);
@@ -102,34 +135,39 @@ fn do_session(s: &Value) -> Vec<Value> {
     let mut accepted: Vec<Value> = vec![];
     if cap >= 0 {
         let cap = cap as usize;
-        ev.push(json!({"e": "pk_new", "cap": cap}));
+        let mut bk = s["bk"].as_str().unwrap_or("slice").to_string();
+        let mut len0 = s["len0"].as_u64().unwrap_or(0) as usize;
+        if bk == "arrayvec" {
+            if cap > 32 {
+                bk = "slice".into();
+            } else {
+                len0 = 32 - cap;
+            }
+        }
+        if bk == "slice" {
+            len0 = 0;
+        }
+        let pre: Vec<u8> = (0..len0).map(|i| 0xA0u8.wrapping_add(i as u8)).collect();
         let mut g = Guarded::new(cap);
+        let mut vecb: Vec<u8> = Vec::new();
+        let mut avb: arrayvec::ArrayVec<[u8; 32]> = arrayvec::ArrayVec::new();
+        if bk == "vec" {
+            vecb = Vec::with_capacity(len0 + cap);
+            vecb.extend_from_slice(&pre);
+            if vecb.capacity() != len0 + cap {
+                bk = "slice".into(); // the allocator rounded up: the capacity would not be the one of the case
+            }
+        } else if bk == "arrayvec" {
+            avb.try_extend_from_slice(&pre).expect("arrayvec prefix");
+        }
+        let pre = if bk == "slice" { vec![] } else { pre };
+        ev.push(json!({"e": "pk_new", "cap": cap, "bk": bk, "pre": jbytes(&pre)}));
         let writes = s["writes"].as_array().cloned().unwrap_or_default();
         let mut wev = Vec::new();
-        let res = catch(|| {
-            with_packer(g.slice(), |mut p| {
-                for w in &writes {
-                    let k = w["k"].as_str().unwrap_or("");
-                    let x = w["x"].as_i64().unwrap_or(0) as i32;
-                    let b = bytes_of(&w["b"]);
-                    let r = guarded(5000, || match k {
-                        "int" => p.write_int(x),
-                        "str" => p.write_string(&b),
-                        "data" => p.write_data(&b),
-                        "raw" => p.write_raw(&b),
-                        _ => p.write_rest(&b),
-                    });
-                    let res = match r {
-                        Ok(Ok(())) => "ok",
-                        Ok(Err(_)) => "cap",
-                        Err(_) => "panic",
-                    };
-                    let rem = catch(|| with_buffer(&mut p, |b| b.remaining())).unwrap_or(usize::MAX);
-                    let after = if rem == usize::MAX { -1 } else { cap as i64 - rem as i64 };
-                    wev.push(json!({"e": "w", "k": k, "x": x, "b": jbytes(&b), "res": res, "after": after}));
-                }
-                p.written().to_vec()
-            })
+        let res = catch(|| match bk.as_str() {
+            "vec" => write_phase(&mut vecb, cap, &writes, &mut wev),
+            "arrayvec" => write_phase(&mut avb, cap, &writes, &mut wev),
+            _ => write_phase(g.slice(), cap, &writes, &mut wev),
         });
         for e in &wev {
             if e["res"] == "ok" {
@@ -141,9 +179,15 @@ fn do_session(s: &Value) -> Vec<Value> {
         match res {
             Ok(w) => {
                 written = w;
-                ev.push(json!({"e": "pk_end", "res": "ok", "written": jbytes(&written), "canary": g.intact()}));
+                // what the owner of the memory holds afterwards (slice: the window itself)
+                let owner: Vec<u8> = match bk.as_str() {
+                    "vec" => vecb.clone(),
+                    "arrayvec" => avb.to_vec(),
+                    _ => g.slice()[..written.len().min(cap)].to_vec(),
+                };
+                ev.push(json!({"e": "pk_end", "res": "ok", "written": jbytes(&written), "canary": g.intact(), "owner": jbytes(&owner)}));
             }
-            Err(_) => ev.push(json!({"e": "pk_end", "res": "panic", "written": [], "canary": g.intact()})),
+            Err(_) => ev.push(json!({"e": "pk_end", "res": "panic", "written": [], "canary": g.intact(), "owner": []})),
         }
     }
     if s["reads"].is_null() {
@@ -159,10 +203,14 @@ fn do_session(s: &Value) -> Vec<Value> {
         (d, "packer")
     };
     if demo && data.len() % 4 != 0 {
-        // new_from_demo asserts the padding: a call the state does not permit
+        // new_from_demo asserts the padding: a call the API does not permit -- executed once, to see the refusal
+        let r = catch(|| Unpacker::new_from_demo(&data).num_bytes_read());
+        if src == "raw" {
+            ev.push(json!({"e": "up_new", "demo": demo, "data": jbytes(&data), "src": src, "pad": pad, "res": if r.is_err() { "panic" } else { "ok" }}));
+        }
         return ev;
     }
-    ev.push(json!({"e": "up_new", "demo": demo, "data": jbytes(&data), "src": src, "pad": pad}));
+    ev.push(json!({"e": "up_new", "demo": demo, "data": jbytes(&data), "src": src, "pad": pad, "res": "ok"}));
     let mut u = if demo { Unpacker::new_from_demo(&data) } else { Unpacker::new(&data) };
     let base = data.as_ptr() as usize;
     // "mirror": read back what was ACCEPTED (the caller carried on after refused writes), then the
@@ -174,11 +222,28 @@ fn do_session(s: &Value) -> Vec<Value> {
         let n = r["n"].as_u64().unwrap_or(0) as usize;
         let mut warns: Vec<Warning> = vec![];
         let mut ex: Vec<libtw2_packer::ExcessData> = vec![];
+        let mut uu = [0u8; 16];
+        // Ok(Some(..)) = Ok, Ok(None) = UnexpectedEnd, "ctrl" = ControlCharacters of sanitize
+        let mut ctrl = false;
         let res = guarded(5000, || match o.as_str() {
             "int" => u.read_int(&mut warns).map(|v| (v, None)).ok(),
             "str" => u.read_string().map(|b| (0, Some(b))).ok(),
+            "strsan" => match u.read_string() {
+                Ok(b) => match libtw2_packer::sanitize(&mut warns, b) {
+                    Ok(b) => Some((0, Some(b))),
+                    Err(_) => {
+                        ctrl = true;
+                        Some((0, None))
+                    }
+                },
+                Err(_) => None,
+            },
             "data" => u.read_data(&mut warns).map(|b| (0, Some(b))).ok(),
             "raw" => u.read_raw(n).map(|b| (0, Some(b))).ok(),
+            "uuid" => u.read_uuid().ok().map(|id| {
+                uu = *id.as_bytes();
+                (0, None)
+            }),
             "rest" => u.read_rest().map(|b| (0, Some(b))).ok(),
             _ => {
                 u.finish(&mut ex);
@@ -191,18 +256,120 @@ fn do_session(s: &Value) -> Vec<Value> {
         }
         let to = u.num_bytes_read();
         let rest = u.as_slice();
-        let sfx = to <= data.len() && rest == &data[to..] && u.is_empty() == rest.is_empty();
-        let mut e = json!({"e": "r", "o": o, "n": n, "w": w, "to": to, "rl": rest.len(), "sfx": sfx, "v": 0, "b": [], "off": -1});
+        let sfx = to <= data.len() && rest == &data[to..];
+        let mut e = json!({"e": "r", "o": o, "n": n, "w": w, "to": to, "rl": rest.len(), "sfx": sfx, "empty": u.is_empty(), "v": 0, "b": [], "off": -1});
         match res {
             Ok(Some((v, b))) => {
-                e["res"] = json!("ok");
+                e["res"] = json!(if ctrl { "ctrl" } else { "ok" });
                 e["v"] = json!(v);
                 if let Some(b) = b {
                     e["b"] = jbytes(b);
                     let p = b.as_ptr() as usize;
                     // offset of the returned slice inside the input (-1: not a slice of the input)
                     e["off"] = if p >= base && p + b.len() <= base + data.len() { json!(p - base) } else { json!(-1) };
+                } else if o == "uuid" {
+                    e["b"] = jbytes(&uu);
                 }
+            }
+            Ok(None) => e["res"] = json!("end"),
+            Err(_) => e["res"] = json!("panic"),
+        }
+        ev.push(e);
+    }
+    ev
+}
+
+// ---------------------------------------------------------------- helper functions, IntUnpacker
+
+/// One call of a free helper function of the packer crate.
+/// input: {"f", "a": [ints], "b": [bytes], "n"}; output adds "res", "v", "out", "ints", "warn".
+fn do_helper(c: &Value) -> Value {
+    use libtw2_packer as pk;
+    let f = c["f"].as_str().unwrap_or("").to_string();
+    let a: Vec<i32> = c["a"].as_array().map(|a| a.iter().map(|x| x.as_i64().unwrap_or(0) as i32).collect()).unwrap_or_default();
+    let b = bytes_of(&c["b"]);
+    let n = c["n"].as_u64().unwrap_or(0) as usize;
+    let arg = |i: usize| a.get(i).copied().unwrap_or(0);
+    let mut o = json!({"f": f, "a": c["a"], "b": jbytes(&b), "n": n, "res": "ok", "v": 0, "out": [], "ints": [], "warn": false});
+    let range = |r: Result<i32, pk::IntOutOfRange>, o: &mut Value| match r {
+        Ok(v) => o["v"] = json!(v),
+        Err(_) => o["res"] = json!("range"),
+    };
+    let r = guarded(5000, || match f.as_str() {
+        "in_range" => range(pk::in_range(arg(0), arg(1), arg(2)), &mut o),
+        "at_least" => range(pk::at_least(arg(0), arg(1)), &mut o),
+        "positive" => range(pk::positive(arg(0)), &mut o),
+        "to_bool" => range(pk::to_bool(arg(0)).map(|x| x as i32), &mut o),
+        "sanitize" => {
+            let mut w: Vec<Warning> = vec![];
+            match pk::sanitize(&mut w, &b) {
+                Ok(s) => o["out"] = jbytes(s),
+                Err(_) => o["res"] = json!("ctrl"),
+            }
+            o["warn"] = json!(!w.is_empty());
+        }
+        "bytes_to_string" => {
+            let mut w: Vec<pk::WeirdStringTermination> = vec![];
+            let s = pk::bytes_to_string(&mut w, &b);
+            o["out"] = jbytes(s);
+            o["warn"] = json!(!w.is_empty());
+        }
+        "string_to_ints" => {
+            // the fixed-size entry points where they exist, the general one otherwise
+            let v: Vec<i32> = match n {
+                3 => pk::string_to_ints3(&b).to_vec(),
+                4 => pk::string_to_ints4(&b).to_vec(),
+                6 => pk::string_to_ints6(&b).to_vec(),
+                _ => {
+                    let mut v = vec![0x5a5a5a5ai32; n];
+                    pk::string_to_ints(&mut v, &b);
+                    v
+                }
+            };
+            o["ints"] = json!(v);
+        }
+        "string_to_bytes" => {
+            let mut g = Guarded::new(n);
+            match pk::string_to_bytes(g.slice(), &b) {
+                Ok(s) => o["out"] = jbytes(s),
+                Err(_) => o["res"] = json!("cap"),
+            }
+            if !g.intact() {
+                o["res"] = json!("canary");
+            }
+        }
+        _ => o["res"] = json!("unknown"),
+    });
+    if r.is_err() {
+        o["res"] = json!("panic");
+        o["v"] = json!(0);
+        o["out"] = json!([]);
+        o["ints"] = json!([]);
+        o["warn"] = json!(false);
+    }
+    o
+}
+
+/// An IntUnpacker session: {"xs": [ints], "ops": ["int" | "finish", ..]} -> iu_new + one `ir` event per call.
+fn do_iu(xs: &[i32], ops: &[String]) -> Vec<Value> {
+    let mut ev = vec![json!({"e": "iu_new", "xs": xs})];
+    let mut u = IntUnpacker::new(xs);
+    for o in ops {
+        let mut ex: Vec<libtw2_packer::ExcessData> = vec![];
+        let r = guarded(5000, || match o.as_str() {
+            "int" => u.read_int().ok(),
+            _ => {
+                u.finish(&mut ex);
+                Some(0)
+            }
+        });
+        let rest = u.as_slice();
+        let w: Vec<&str> = ex.iter().map(|_| "ExcessData").collect();
+        let mut e = json!({"e": "ir", "o": o, "v": 0, "w": w, "to": xs.len() as i64 - rest.len() as i64, "rest": rest, "empty": u.is_empty()});
+        match r {
+            Ok(Some(v)) => {
+                e["res"] = json!("ok");
+                e["v"] = json!(v);
             }
             Ok(None) => e["res"] = json!("end"),
             Err(_) => e["res"] = json!("panic"),
@@ -245,6 +412,7 @@ fn sorted_strs(v: &Value) -> Vec<String> {
 fn replay(path: &str) {
     let mut mm = Mismatches { out: std::fs::File::create(path).expect("create"), cases: 0, written: 0, samples: vec![] };
     let (mut ints, mut decs, mut sessions, mut ops, mut nontrivial) = (0u64, 0u64, 0u64, 0u64, 0u64);
+    let (mut helpers, mut hsample, mut usample) = (0u64, 0, 0);
     let mut sample: Vec<Value> = vec![];
     for_each_export(|tag, v| match tag {
         'I' => {
@@ -310,7 +478,9 @@ fn replay(path: &str) {
             let reads: Vec<Value> = v[5].as_array().unwrap().iter().map(|r| json!({"o": r[0], "n": r[1]})).collect();
             let buf = bytes_of(&v[2]);
             let data = bytes_of(&v[4]);
-            let mut s = json!({"cap": cap, "writes": writes, "demo": v[3], "reads": reads});
+            // the same session on every kind of memory `with_packer` accepts, in turn
+            let (bk, len0) = [("slice", 0), ("vec", 0), ("vec", 3), ("arrayvec", 0)][(sessions % 4) as usize];
+            let mut s = json!({"cap": cap, "bk": bk, "len0": len0, "writes": writes, "demo": v[3], "reads": reads});
             if cap < 0 {
                 s["data"] = jbytes(&data);
             } else {
@@ -322,6 +492,7 @@ fn replay(path: &str) {
             let mut ok = true;
             let mut wi = 0;
             let mut ri = 0;
+            let mut pre = json!([]);
             for e in &ev {
                 ops += 1;
                 match e["e"].as_str().unwrap() {
@@ -330,12 +501,17 @@ fn replay(path: &str) {
                         ok &= e["res"] == x[3] && e["after"] == x[4];
                         wi += 1;
                     }
-                    "pk_end" => ok &= e["res"] == "ok" && bytes_of(&e["written"]) == buf && e["canary"] == true,
-                    "up_new" => ok &= bytes_of(&e["data"]) == data,
+                    "pk_end" => {
+                        let mut own = bytes_of(&pre);
+                        own.extend_from_slice(&buf);
+                        ok &= e["res"] == "ok" && bytes_of(&e["written"]) == buf && e["canary"] == true && bytes_of(&e["owner"]) == own
+                    }
+                    "pk_new" => pre = e["pre"].clone(),
+                    "up_new" => ok &= bytes_of(&e["data"]) == data && e["res"] == "ok",
                     "r" => {
                         let x = &v[5][ri];
                         ok &= e["res"] == x[2] && e["v"] == x[3] && e["b"] == x[4] && sorted_strs(&e["w"]) == sorted_strs(&x[5])
-                            && e["to"] == x[6] && e["sfx"] == true
+                            && e["to"] == x[6] && e["sfx"] == true && e["empty"] == json!(e["rl"] == json!(0))
                             && (e["off"] == json!(-1) || e["b"].as_array().map(|a| a.is_empty()).unwrap_or(true)
                                 || e["off"].as_i64().unwrap() + e["b"].as_array().unwrap().len() as i64 <= x[6].as_i64().unwrap());
                         ri += 1;
@@ -350,11 +526,56 @@ fn replay(path: &str) {
                 sample.push(json!({"session": ev}));
             }
         }
+        'G' => {
+            // helper calls: <<f, a, b, n, res, v, out, ints, warn>>
+            let mut items = vec![];
+            let mut bad = false;
+            for c in v.as_array().unwrap() {
+                let r = do_helper(&json!({"f": c[0], "a": c[1], "b": c[2], "n": c[3]}));
+                helpers += 1;
+                nontrivial += (c[2].as_array().map(|a| a.len()).unwrap_or(0) >= 2 || c[1].as_array().map(|a| a.len()).unwrap_or(0) >= 2) as u64;
+                let ok = r["res"] == c[4] && r["v"] == c[5] && r["out"] == c[6] && r["ints"] == c[7] && r["warn"] == c[8];
+                if !ok {
+                    bad = true;
+                    items.push(r);
+                } else if sample.len() < 8 && r["f"] == "string_to_ints" && r["res"] == "ok" && r["b"].as_array().unwrap().len() >= 3 && hsample < 2 {
+                    hsample += 1;
+                    sample.push(json!({"helper": r}));
+                }
+            }
+            if bad {
+                mm.add("helpers", vec![json!({"e": "helpers", "items": items})], json!("see the specification's Helper(c)"));
+            }
+        }
+        'U' => {
+            // IntUnpacker: <<xs, {run, ..}>>, run = <<<<o, res, v, w, to>>, ..>>
+            let xs: Vec<i32> = v[0].as_array().unwrap().iter().map(|x| x.as_i64().unwrap() as i32).collect();
+            for run in v[1].as_array().unwrap() {
+                let steps = run.as_array().unwrap();
+                let opsv: Vec<String> = steps.iter().map(|st| st[0].as_str().unwrap().to_string()).collect();
+                let ev = do_iu(&xs, &opsv);
+                sessions += 1;
+                nontrivial += (steps.len() >= 2) as u64;
+                let mut ok = ev.len() == steps.len() + 1;
+                for (e, x) in ev.iter().skip(1).zip(steps) {
+                    ops += 1;
+                    let to = x[4].as_i64().unwrap() as usize;
+                    ok &= e["res"] == x[1] && e["v"] == x[2] && sorted_strs(&e["w"]) == sorted_strs(&x[3]) && e["to"] == x[4]
+                        && e["rest"] == json!(xs[to.min(xs.len())..]) && e["empty"] == json!(to == xs.len());
+                }
+                if !ok {
+                    mm.add("intunpacker", ev, run.clone());
+                } else if usample < 1 && xs.len() >= 2 && steps.len() >= 4 {
+                    usample += 1;
+                    sample.push(json!({"intunpacker": ev}));
+                }
+            }
+        }
         _ => {}
     });
     println!(
         "SUMMARY {}",
-        json!({"ints": ints, "decs": decs, "sessions": sessions, "ops": ops, "nontrivial": nontrivial, "mismatch_cases": mm.cases,
+        json!({"ints": ints, "decs": decs, "sessions": sessions, "ops": ops + helpers, "helpers": helpers, "nontrivial": nontrivial, "mismatch_cases": mm.cases,
                "mismatch_samples": mm.samples, "samples": sample})
     );
 }
@@ -449,7 +670,12 @@ fn rnd_session(rng: &mut StdRng) -> Value {
     let mut writes = Vec::new();
     let mut total = 0usize;
     for _ in 0..nw {
-        let w = match rng.gen_range(0..5) {
+        let w = match rng.gen_range(0..11) % 6 {
+            5 => {
+                let b: Vec<u8> = (0..16).map(|_| if rng.gen_range(0..4) == 0 { [0u8, 0xff, 0x80][rng.gen_range(0..3)] } else { rng.gen() }).collect();
+                total += 16;
+                json!({"k": "uuid", "x": 0, "b": jbytes(&b)})
+            }
             0 | 1 => {
                 let x = rnd_int(rng);
                 total += 3;
@@ -457,7 +683,9 @@ fn rnd_session(rng: &mut StdRng) -> Value {
             }
             2 => {
                 let n = rng.gen_range(0..10);
-                let b: Vec<u8> = (0..n).map(|_| rng.gen_range(1..=255)).collect();
+                // mostly printable, sometimes with control characters (sanitize refuses those)
+                let ctl = rng.gen_range(0..3) == 0;
+                let b: Vec<u8> = (0..n).map(|_| if ctl { rng.gen_range(1..=255) } else { rng.gen_range(32..=255) }).collect();
                 total += n + 1;
                 json!({"k": "str", "x": 0, "b": jbytes(&b)})
             }
@@ -500,8 +728,10 @@ fn rnd_session(rng: &mut StdRng) -> Value {
         for w in &writes {
             let k = w["k"].as_str().unwrap();
             if rng.gen_range(0..12) == 0 {
-                let o = ["int", "str", "data", "raw", "rest"][rng.gen_range(0..5)];
+                let o = ["int", "str", "data", "raw", "rest", "strsan", "uuid"][rng.gen_range(0..7)];
                 reads.push(json!({"o": o, "n": rng.gen_range(0..4)}));
+            } else if k == "str" && rng.gen() {
+                reads.push(json!({"o": "strsan", "n": 0}));
             } else if k == "raw" {
                 reads.push(json!({"o": "raw", "n": w["b"].as_array().unwrap().len()}));
             } else {
@@ -510,21 +740,23 @@ fn rnd_session(rng: &mut StdRng) -> Value {
         }
     }
     for _ in 0..rng.gen_range(0..3) {
-        let o = ["int", "str", "data", "raw", "rest", "finish"][rng.gen_range(0..6)];
+        let o = ["int", "str", "data", "raw", "rest", "finish", "strsan", "uuid"][rng.gen_range(0..8)];
         reads.push(json!({"o": o, "n": rng.gen_range(0..5)}));
     }
     reads.push(json!({"o": "finish", "n": 0}));
     if rng.gen_range(0..4) == 0 {
-        let o = ["int", "str", "data", "rest", "finish"][rng.gen_range(0..5)];
+        let o = ["int", "str", "data", "rest", "finish", "strsan", "uuid"][rng.gen_range(0..7)];
         reads.push(json!({"o": o, "n": 0}));
     }
-    let mut s = json!({"cap": cap, "writes": writes, "demo": demo, "reads": reads, "mirror": mirror});
+    let (bk, len0) = [("slice", 0), ("slice", 0), ("vec", 0), ("vec", 5), ("arrayvec", 0)][rng.gen_range(0..5)];
+    let mut s = json!({"cap": cap, "bk": bk, "len0": len0, "writes": writes, "demo": demo, "reads": reads, "mirror": mirror});
     match rng.gen_range(0..8) {
         0 => {
             // arbitrary input for the unpacker
             let n = rng.gen_range(0..24);
             let mut d: Vec<u8> = (0..n).map(|_| if rng.gen_range(0..3) == 0 { [0u8, 0x80, 0xff, 0x40][rng.gen_range(0..4)] } else { rng.gen() }).collect();
-            if demo {
+            // (one demo input in eight keeps a length new_from_demo does not permit: the refusal is recorded)
+            if demo && rng.gen_range(0..3) != 0 {
                 while d.len() % 4 != 0 {
                     d.push(0);
                 }
@@ -537,6 +769,97 @@ fn rnd_session(rng: &mut StdRng) -> Value {
         }
     }
     s
+}
+
+fn rnd_string(rng: &mut StdRng, n: usize, nul_free: bool) -> Vec<u8> {
+    (0..n)
+        .map(|_| match rng.gen_range(0..8) {
+            0 => [1u8, 31, 32, 127, 128, 255, 9, 10][rng.gen_range(0..8)],
+            1 if !nul_free => 0,
+            _ => {
+                let lo = if rng.gen_range(0..6) == 0 { 1 } else { 32 };
+                rng.gen_range(lo..=255)
+            }
+        })
+        .collect()
+}
+
+fn rnd_helper(rng: &mut StdRng) -> Value {
+    match rng.gen_range(0..8) {
+        0 => {
+            let v = rnd_int(rng);
+            let near = |rng: &mut StdRng| (v as i64 + rng.gen_range(-2..=2)).clamp(i32::MIN as i64, i32::MAX as i64) as i32;
+            let lo = if rng.gen() { rnd_int(rng) } else { near(rng) };
+            let hi = if rng.gen() { rnd_int(rng) } else { near(rng) };
+            json!({"f": "in_range", "a": [v, lo, hi], "b": [], "n": 0})
+        }
+        1 => {
+            let v = rnd_int(rng);
+            let lo = if rng.gen() { rnd_int(rng) } else { (v as i64 + rng.gen_range(-1..=1)).clamp(i32::MIN as i64, i32::MAX as i64) as i32 };
+            json!({"f": "at_least", "a": [v, lo], "b": [], "n": 0})
+        }
+        2 => {
+            let v = if rng.gen() { rng.gen_range(-3..4) } else { rnd_int(rng) };
+            json!({"f": if rng.gen() { "positive" } else { "to_bool" }, "a": [v], "b": [], "n": 0})
+        }
+        3 => {
+            let n = rng.gen_range(0..40);
+            let nf = rng.gen();
+            json!({"f": "sanitize", "a": [], "b": jbytes(&rnd_string(rng, n, nf)), "n": 0})
+        }
+        4 => {
+            // a fixed-size field: a string, zero padding, sometimes garbage behind the NUL or no NUL at all
+            let field = [4usize, 8, 12, 16, 24, 32, 64][rng.gen_range(0..7)];
+            let n = rng.gen_range(0..=field);
+            let mut b = rnd_string(rng, n, true);
+            b.resize(field, 0);
+            match rng.gen_range(0..6) {
+                0 => {
+                    let i = rng.gen_range(0..field);
+                    b[i] = rng.gen();
+                }
+                1 => b.truncate(rng.gen_range(0..=field)),
+                _ => {}
+            }
+            json!({"f": "bytes_to_string", "a": [], "b": jbytes(&b), "n": 0})
+        }
+        5 | 6 => {
+            let n = [1usize, 2, 3, 3, 4, 4, 6, 6, 8, 16][rng.gen_range(0..10)];
+            let len = match rng.gen_range(0..6) {
+                0 => 4 * n - 1,
+                1 => 4 * n,
+                2 => 4 * n + rng.gen_range(0..3),
+                _ => rng.gen_range(0..4 * n),
+            };
+            let nf = rng.gen_range(0..10) != 0;
+            json!({"f": "string_to_ints", "a": [], "b": jbytes(&rnd_string(rng, len, nf)), "n": n})
+        }
+        _ => {
+            let len = rng.gen_range(0..24);
+            let cap = (len as i64 + 1 + rng.gen_range(-2..=2)).max(0);
+            let nf = rng.gen_range(0..10) != 0;
+            json!({"f": "string_to_bytes", "a": [], "b": jbytes(&rnd_string(rng, len, nf)), "n": cap})
+        }
+    }
+}
+
+fn rnd_iu(rng: &mut StdRng) -> (Vec<i32>, Vec<String>) {
+    let n = if rng.gen_range(0..4) == 0 { rng.gen_range(0..3) } else { rng.gen_range(0..40) };
+    let xs: Vec<i32> = (0..n).map(|_| rnd_int(rng)).collect();
+    // read some, all, or more than there is; finish somewhere; carry on behind it
+    let reads = match rng.gen_range(0..3) {
+        0 => n,
+        1 => rng.gen_range(0..=n),
+        _ => n + rng.gen_range(1..4),
+    };
+    let mut ops: Vec<String> = (0..reads).map(|_| "int".to_string()).collect();
+    if rng.gen_range(0..3) != 0 {
+        ops.push("finish".into());
+    }
+    for _ in 0..rng.gen_range(0..3) {
+        ops.push(if rng.gen() { "int" } else { "finish" }.to_string());
+    }
+    (xs, ops)
 }
 
 fn drive(seed: u64, n_ints: usize, n_decs: usize, n_sessions: usize, path: &str) {
@@ -579,8 +902,24 @@ fn drive(seed: u64, n_ints: usize, n_decs: usize, n_sessions: usize, path: &str)
             events += 1;
         }
     }
+    // helper functions and IntUnpacker sessions (extension round)
+    let n_helpers = n_ints / 2;
+    for chunk in 0..(n_helpers + 499) / 500 {
+        let n = 500.min(n_helpers - chunk * 500);
+        let items: Vec<Value> = (0..n).map(|_| do_helper(&rnd_helper(&mut rng))).collect();
+        writeln!(out, "{}", json!({"e": "helpers", "items": items})).unwrap();
+        events += 1;
+    }
+    let n_iu = n_sessions / 2;
+    for _ in 0..n_iu {
+        let (xs, ops) = rnd_iu(&mut rng);
+        for e in do_iu(&xs, &ops) {
+            writeln!(out, "{}", e).unwrap();
+            events += 1;
+        }
+    }
     out.flush().unwrap();
-    println!("SUMMARY {}", json!({"events": events, "ints": n_ints, "decs": n_decs, "sessions": n_sessions}));
+    println!("SUMMARY {}", json!({"events": events, "ints": n_ints, "decs": n_decs, "sessions": n_sessions, "helpers": n_helpers, "iu_sessions": n_iu}));
 }
 
 /// Re-executes the inputs found in recorded events (recorded outputs are ignored).
@@ -590,7 +929,14 @@ fn rerun(inp: &str, outp: &str) {
     let mut cur: Option<Value> = None;
     let flush = |cur: &mut Option<Value>, out: &mut std::fs::File| {
         if let Some(s) = cur.take() {
-            for e in do_session(&s) {
+            let ev = if s["iu"].is_array() {
+                let xs: Vec<i32> = s["iu"].as_array().unwrap().iter().map(|x| x.as_i64().unwrap_or(0) as i32).collect();
+                let ops: Vec<String> = s["ops"].as_array().unwrap().iter().map(|x| x.as_str().unwrap_or("int").to_string()).collect();
+                do_iu(&xs, &ops)
+            } else {
+                do_session(&s)
+            };
+            for e in ev {
                 writeln!(out, "{}", e).unwrap();
             }
         }
@@ -608,9 +954,26 @@ fn rerun(inp: &str, outp: &str) {
                 let items: Vec<Value> = e["items"].as_array().unwrap().iter().map(|i| do_dec(&bytes_of(&i["b"]))).collect();
                 writeln!(out, "{}", json!({"e": "decs", "items": items})).unwrap();
             }
+            "helpers" => {
+                flush(&mut cur, &mut out);
+                let items: Vec<Value> = e["items"].as_array().unwrap().iter().map(do_helper).collect();
+                writeln!(out, "{}", json!({"e": "helpers", "items": items})).unwrap();
+            }
+            "iu_new" => {
+                flush(&mut cur, &mut out);
+                cur = Some(json!({"iu": e["xs"], "ops": []}));
+            }
+            "ir" => {
+                if let Some(s) = cur.as_mut() {
+                    if s["ops"].is_array() {
+                        s["ops"].as_array_mut().unwrap().push(e["o"].clone());
+                    }
+                }
+            }
             "pk_new" => {
                 flush(&mut cur, &mut out);
-                cur = Some(json!({"cap": e["cap"], "writes": [], "reads": null}));
+                let len0 = e["pre"].as_array().map(|a| a.len()).unwrap_or(0);
+                cur = Some(json!({"cap": e["cap"], "bk": e["bk"], "len0": len0, "writes": [], "reads": null}));
             }
             "w" => {
                 if let Some(s) = cur.as_mut() {
@@ -640,6 +1003,195 @@ fn rerun(inp: &str, outp: &str) {
     flush(&mut cur, &mut out);
 }
 
+// ---------------------------------------------------------------- sweep of the integers
+
+/// One class of the encoding as exported by the specification (IntClasses.tla): integers of sign `neg`
+/// whose magnitude lies in mlo..=mhi are written as `groups.len()` bytes, byte k being
+/// ((m / div) % modulus) + add.
+struct Class {
+    neg: bool,
+    mlo: u32,
+    mhi: u32,
+    groups: Vec<(u32, u32, u32)>,
+}
+
+struct CountWarn(u32);
+impl libtw2_warn::Warn<Warning> for CountWarn {
+    fn warn(&mut self, _: Warning) {
+        self.0 += 1;
+    }
+}
+
+const SW_PRE: usize = 4;
+
+/// write_int(x) into a window of `cap` bytes inside a canary-filled array; (accepted, bytes, len, canary intact)
+#[inline(always)]
+fn sweep_write(x: i32, cap: usize) -> (bool, [u8; 5], usize, bool) {
+    let mut mem = [0xC3u8; SW_PRE + 5 + 4];
+    let (ok, n) = with_packer(&mut mem[SW_PRE..SW_PRE + cap], |mut p| {
+        let r = p.write_int(x);
+        (r.is_ok(), p.written().len())
+    });
+    let mut out = [0u8; 5];
+    out[..n.min(5)].copy_from_slice(&mem[SW_PRE..SW_PRE + n.min(5)]);
+    let intact = mem[..SW_PRE].iter().all(|&b| b == 0xC3) && mem[SW_PRE + cap..].iter().all(|&b| b == 0xC3);
+    (ok, out, n, intact)
+}
+
+/// Everything `do_int` observes, without allocation; true = exactly what the class table prescribes.
+#[inline(always)]
+fn sweep_one(x: i32, classes: &[Class], counts: &mut [u64]) -> bool {
+    let neg = x < 0;
+    let m = if neg { !(x as u32) } else { x as u32 };
+    let ci = match classes.iter().position(|c| c.neg == neg && c.mlo <= m && m <= c.mhi) {
+        Some(i) => i,
+        None => return false,
+    };
+    counts[ci] += 1;
+    let c = &classes[ci];
+    let n = c.groups.len();
+    let mut want = [0u8; 5];
+    for (k, &(div, modulus, add)) in c.groups.iter().enumerate() {
+        want[k] = ((m / div) % modulus + add) as u8;
+    }
+    let (ok, got, len, intact) = sweep_write(x, 5);
+    if !(ok && intact && len == n && got[..n] == want[..n]) {
+        return false;
+    }
+    let mut w = CountWarn(0);
+    let mut u = Unpacker::new(&got[..n]);
+    match u.read_int(&mut w) {
+        Ok(v) if v == x && w.0 == 0 && u.num_bytes_read() == n && u.is_empty() => {}
+        _ => return false,
+    }
+    // exactly as much room as the encoding needs; one byte less
+    let (xok, xgot, xlen, xint) = sweep_write(x, n);
+    let (sok, _, _, sint) = sweep_write(x, n - 1);
+    xok && xint && xlen == n && xgot[..n] == want[..n] && !sok && sint
+}
+
+fn sweep(stride: u64, offset: u64, dense: u64, threads: usize, path: &str) {
+    // the sweep starts as soon as the table has arrived; TLC goes on checking its sample of every class
+    let (tx, rx) = std::sync::mpsc::channel::<Vec<Class>>();
+    let path = path.to_string();
+    let worker = std::thread::spawn(move || match rx.recv() {
+        Ok(classes) => sweep_run(classes, stride, offset, dense, threads, &path),
+        Err(_) => None,
+    });
+    let mut tx = Some(tx);
+    for_each_export(|tag, v| {
+        if tag == 'C' {
+            let mut classes: Vec<Class> = vec![];
+            for c in v.as_array().unwrap() {
+                classes.push(Class {
+                    neg: c[0] == json!(1),
+                    mlo: c[2].as_u64().unwrap() as u32,
+                    mhi: c[3].as_u64().unwrap() as u32,
+                    groups: c[4].as_array().unwrap().iter().map(|g| (g[0].as_u64().unwrap() as u32, g[1].as_u64().unwrap() as u32, g[2].as_u64().unwrap() as u32)).collect(),
+                });
+            }
+            if let Some(tx) = tx.take() {
+                let _ = tx.send(classes);
+            }
+        }
+    });
+    drop(tx);
+    match worker.join().expect("sweep") {
+        Some(summary) => println!("SUMMARY {}", summary),
+        None => {
+            println!("HARNESS-ERROR no class table on stdin");
+            std::process::exit(3);
+        }
+    }
+}
+
+fn sweep_run(classes: Vec<Class>, stride: u64, offset: u64, dense: u64, threads: usize, path: &str) -> Option<Value> {
+    if classes.len() != 10 {
+        return None;
+    }
+    let classes = std::sync::Arc::new(classes);
+    let t0 = std::time::Instant::now();
+    const BLOCK: u64 = 1 << 16;
+    let mut counts = vec![0u64; classes.len()];
+    let mut bad: Vec<i32> = vec![];
+    let mut nbad = 0u64;
+    // segment 1: the integers offset + k * stride of the 2^32 bit patterns; segment 2 (dense > 0): every
+    // integer of magnitude below `dense` (the short classes hold few integers: a stride would skip them)
+    let total: u64 = ((1u64 << 32) - offset + stride - 1) / stride;
+    let segments: Vec<(u64, u64, u64)> = vec![(offset, stride, total), ((1u64 << 32) - dense, 1, 2 * dense)];
+    for (start, step, count) in segments {
+        let next = std::sync::Arc::new(std::sync::atomic::AtomicU64::new(0));
+        let mut handles = vec![];
+        for _ in 0..threads.max(1) {
+            let classes = classes.clone();
+            let next = next.clone();
+            handles.push(std::thread::spawn(move || {
+                let mut counts = vec![0u64; classes.len()];
+                let mut bad: Vec<i32> = vec![];
+                let mut nbad = 0u64;
+                loop {
+                    let b = next.fetch_add(1, std::sync::atomic::Ordering::Relaxed);
+                    let lo = b * BLOCK;
+                    if lo >= count {
+                        break;
+                    }
+                    let hi = (lo + BLOCK).min(count);
+                    for k in lo..hi {
+                        let x = (start + k * step) as u32 as i32;
+                        let ok = catch(|| sweep_one(x, &classes, &mut counts)).unwrap_or(false);
+                        if !ok {
+                            nbad += 1;
+                            if bad.len() < 64 {
+                                bad.push(x);
+                            }
+                        }
+                    }
+                }
+                (counts, bad, nbad)
+            }));
+        }
+        for h in handles {
+            let (c, b, n) = h.join().expect("sweep thread");
+            for (i, x) in c.iter().enumerate() {
+                counts[i] += x;
+            }
+            bad.extend(b);
+            nbad += n;
+        }
+    }
+    // the boundaries of every class (both neighbours), always
+    let mut edges = 0u64;
+    {
+        let mut c2 = vec![0u64; classes.len()];
+        for c in classes.iter() {
+            for m in [c.mlo, c.mlo.wrapping_add(1), c.mhi, c.mhi.wrapping_sub(1)] {
+                let x = if c.neg { !m as i32 } else { m as i32 };
+                edges += 1;
+                if !catch(|| sweep_one(x, &classes, &mut c2)).unwrap_or(false) {
+                    nbad += 1;
+                    bad.push(x);
+                }
+            }
+        }
+    }
+    // every integer that was not reproduced is recorded in full and judged by the trace specification
+    bad.sort();
+    bad.dedup();
+    let mut out = std::fs::File::create(path).expect("create");
+    let mut samples = vec![];
+    if !bad.is_empty() {
+        let items: Vec<Value> = bad.iter().take(200).map(|&x| do_int(x)).collect();
+        samples = items.iter().take(3).cloned().collect();
+        writeln!(out, "{}", json!({"e": "ints", "items": items})).unwrap();
+    }
+    let per_class: Vec<Value> = classes.iter().zip(&counts).map(|(c, n)| json!({"neg": c.neg, "bytes": c.groups.len(), "mlo": c.mlo, "mhi": c.mhi, "swept": n})).collect();
+    Some(
+        json!({"ints": total + 2 * dense + edges, "dense": dense, "decs": 0, "sessions": 0, "ops": 0, "nontrivial": counts.iter().zip(classes.iter()).filter(|(_, c)| c.groups.len() >= 2).map(|(n, _)| *n).sum::<u64>(),
+               "mismatch_cases": nbad, "mismatch_samples": samples, "samples": [], "stride": stride, "offset": offset, "threads": threads,
+               "per_class": per_class, "wall_s": t0.elapsed().as_secs_f64()}),
+    )
+}
+
 fn main() {
     vh_common::quiet_panics();
     vh_common::start_watchdog();
@@ -656,6 +1208,7 @@ fn run(a: &[String]) {
         Some("replay") => replay(&a[2]),
         Some("drive") => drive(a[2].parse().unwrap(), a[3].parse().unwrap(), a[4].parse().unwrap(), a[5].parse().unwrap(), &a[6]),
         Some("rerun") => rerun(&a[2], &a[3]),
+        Some("sweep") => sweep(a[2].parse().unwrap(), a[3].parse().unwrap(), a[4].parse().unwrap(), a[5].parse().unwrap(), &a[6]),
         _ => {
             eprintln!("usage: vh-varint replay <mismatches> | drive <seed> <ints> <decs> <sessions> <trace> | rerun <in> <out>");
             std::process::exit(2);
